@@ -12,11 +12,19 @@ Theorem E2E_stream_judge_parts : forall case out,
   e2e_stream_judge case out = true ->
   exists t, parse_stream out = Some t /\
     c01_ok (t_flows t) = true /\
-    c02_ok (t_watchdog t) (t_connect_ok t) (t_n_bidi t) (t_n_uni t) (t_idle_ms t) (t_perm_bh t)
+    c02_ok (t_watchdog t) (t_connect_ok t) (t_n_bidi t) (t_n_uni t) (t_idle_ms t) (t_hs_ms t) (t_perm_bh t)
            (t_client t) (t_server t) (t_flows t) = true /\
     c12_ok (t_recs t) (t_opened t) = true /\
     c03_ok (t_recs t) = true.
 Proof. exact stream_judge_parts. Qed.
+
+(* the per-property judges (used when the component is attached to a single property) are exactly
+   the conjuncts of the combined judge *)
+Theorem E2E_stream_judge_split : forall case out,
+  e2e_stream_judge case out =
+  e2e_stream_judge_c01 case out && e2e_stream_judge_c02 case out &&
+  e2e_stream_judge_c12 case out && e2e_stream_judge_c03 case out.
+Proof. exact stream_judge_split. Qed.
 
 (* C01.  [w] = the byte the sending application wrote at each offset, [rd] = the bytes the
    receiving application read (the harness reports length rd and first_wrong w 0 rd): what was
@@ -35,11 +43,11 @@ Proof. exact c01_all. Qed.
 (* C02.  No stall; with finite faults everything completes; under a permanent blackhole either
    everything had completed or both endpoints report the failure no later than
    idle base + max(idle timeout, 3 PTO) (+ slack), and every application task resolved. *)
-Theorem E2E_c02_sound : forall wd cok nb nu idle pbh c s fl,
-  c02_ok wd cok nb nu idle pbh c s fl = true ->
+Theorem E2E_c02_sound : forall wd cok nb nu idle hs pbh c s fl,
+  c02_ok wd cok nb nu idle hs pbh c s fl = true ->
   wd = 0 /\
   (pbh <> 1 -> cok = 1 /\ AllDone nb nu c s fl) /\
-  (pbh = 1 -> AllDone nb nu c s fl \/ (Reports idle c /\ Reports idle s)).
+  (pbh = 1 -> AllDone nb nu c s fl \/ (Reports idle hs c /\ Reports idle hs s)).
 Proof. exact c02_sound. Qed.
 
 (* C12.  Any two frames of the trace, the earlier first, satisfy the pairwise relation ... *)
@@ -98,6 +106,54 @@ Theorem E2E_c03_conn_limit : forall recs pre r post,
           (conn_used (r_ep r) (highs (fold_left upd03 (pre ++ [r]) st03_init))).
 Proof. exact c03_conn_limit. Qed.
 
+(* ... where the bookkeeping list holds, per (endpoint, stream), exactly the largest end offset
+   among the STREAM frames sent so far, one entry per stream *)
+Theorem E2E_c03_highs_meaning : forall pre s,
+  NoDup (hkeys (highs s)) ->
+  NoDup (hkeys (highs (fold_left upd03 pre s))) /\
+  forall ep sid, hlookup ep sid (highs (fold_left upd03 pre s)) = hmax ep sid (hlookup ep sid (highs s)) pre.
+Proof. exact highs_meaning. Qed.
+
+(* C11.  The judge of e2e_amp runs amp_scan over the wire log ... *)
+Theorem E2E_amp_judge_parts : forall case out, e2e_amp_judge case out = true ->
+  exists rws, take_rows 7 (nz out 8) (skipn 9 out) = Some (rws, []) /\
+    nz out 6 = 0 /\
+    amp_scan (nz out 1) (nz out 2) [] 0 0 false (map mk_wrec rws) = true.
+Proof. exact amp_judge_parts. Qed.
+
+(* ... and an accepted log satisfies, at every event [e] with the events [pre] before it: *)
+Theorem E2E_amp_sound : forall srv cli l pre e post,
+  amp_scan srv cli [] 0 0 false l = true -> l = pre ++ e :: post ->
+  (srv_to srv cli e = true -> existsb is_marker pre = false ->
+     sum_len (srv_to srv cli) pre < 3 * sum_len (to_srv_from srv cli) pre) /\
+  (w_kind e = 0 -> w_src e = srv -> w_dst e <> cli -> reply_ok srv (rev pre) e = true) /\
+  (w_kind e = 0 -> w_src e = cli -> w_class e = 1 -> 1200 <= w_len e).
+Proof. exact amp_sound. Qed.
+
+Theorem E2E_amp_reply_sound : forall srv seen e, reply_ok srv seen e = true ->
+  exists l1 t l2, seen = l1 ++ t :: l2 /\
+    to_srv_from srv (w_dst e) t = true /\
+    (forall x, In x l1 -> srv_to srv (w_dst e) x = false /\ to_srv_from srv (w_dst e) x = false) /\
+    (w_class e = 3 -> 1200 <= w_len t /\ w_class t <> 3) /\
+    (w_class e <> 3 -> w_len e < w_len t).
+Proof. exact reply_sound. Qed.
+
+(* C06.  The judge of e2e_inject: data intact and complete, connections alive, and for both
+   endpoints every processed packet genuine and each (space, packet number) at most once. *)
+Theorem E2E_inject_judge_parts : forall case out, e2e_inject_judge case out = true ->
+  exists fl prc prs,
+    nz out 1 = 0 /\ nz out 2 = 1 /\
+    c01_ok fl = true /\ (forall f, In f fl -> Complete f) /\
+    Z.of_nat (length fl) = 2 * nz out 3 + nz out 4 /\
+    ep_alive (mk_ep (firstn 12 (skipn 5 out))) = true /\
+    ep_alive (mk_ep (firstn 12 (skipn 17 out))) = true /\
+    processed_ok prc = true /\ processed_ok prs = true.
+Proof. exact inject_judge_parts. Qed.
+
+Theorem E2E_processed_sound : forall l, processed_ok l = true ->
+  (forall p, In p l -> p_genuine p = 1) /\ NoDup (map pkey l).
+Proof. exact processed_sound. Qed.
+
 Print Assumptions E2E_stream_judge_parts.
 Print Assumptions E2E_c01_sound.
 Print Assumptions E2E_c01_all.
@@ -113,3 +169,10 @@ Print Assumptions E2E_c12_close_only_close.
 Print Assumptions E2E_c12_ids_increase_no_reuse.
 Print Assumptions E2E_c03_stream_limits.
 Print Assumptions E2E_c03_conn_limit.
+Print Assumptions E2E_amp_judge_parts.
+Print Assumptions E2E_amp_sound.
+Print Assumptions E2E_amp_reply_sound.
+Print Assumptions E2E_inject_judge_parts.
+Print Assumptions E2E_processed_sound.
+Print Assumptions E2E_c03_highs_meaning.
+Print Assumptions E2E_stream_judge_split.
